@@ -177,6 +177,10 @@ func (a *Adapter) Finish(rng *rand.Rand, maxSteps int, probe bool) bool {
 			return false
 		}
 		en := a.run.Enabled()
+		if len(en) == 0 { // everybody left is waiting for a lock nobody will release
+			a.hist = append(a.hist, map[string]interface{}{"ev": "deadlock"})
+			return false
+		}
 		// fairness: prefer goroutines that are not parked at a yield
 		var pref []int
 		for _, t := range en {
